@@ -468,16 +468,24 @@ def run(ctx):
         for m in ci.methods.values():
             fl = ctx.flows.get(m)
             for n in ast.walk(m.node):
-                if isinstance(n, ast.If) and isinstance(n.test, ast.Compare) and isinstance(n.test.ops[0], ast.IsNot) and \
-                        isinstance(n.test.comparators[0], ast.Constant) and n.test.comparators[0].value is None and \
-                        isinstance(n.test.left, ast.Name):
-                    defs = fl.reaching(n.test.left.id, fl.before[id(n)])
+                # any test of a local against None, whatever its spelling (`x is not None`, `not x is None`, `x is None` ... else)
+                tested = None
+                if isinstance(n, ast.If) and id(n) in fl.before:
+                    for a_ in sem.atoms(n.test, True):
+                        m_ = re.fullmatch(r"!?is\(None,([A-Za-z_][A-Za-z_0-9]*)\)", a_)
+                        if m_:
+                            tested = m_.group(1)
+                if tested is not None:
+                    class _T:       # stand-in so the message below keeps reading naturally
+                        pass
+                    n_test_name = tested
+                    defs = fl.reaching(tested, fl.before[id(n)])
                     for d in defs:
                         if isinstance(d.value, ast.Call):
                             tg = [t for t in P.call_targets(m, d.value, count=False) if isinstance(t, FuncInfo)]
                             if tg:
                                 dead = all(returns_only_none(P, t, ctx.flows) for t in tg)
-                                ctx.ob("C12.dead-success", m.short(), f"{n.test.left.id}<-{tg[0].name}", not dead,
+                                ctx.ob("C12.dead-success", m.short(), f"{n_test_name}<-{tg[0].name}", not dead,
                                        f"`{unparse(n.test)}` tests the result of {tg[0].short()}" +
                                        (", which can return a value" if not dead else
                                         ", which returns None on every path: the success branch is dead and the operation "
